@@ -2,6 +2,8 @@ package main
 
 import (
 	"go/constant"
+	"go/token"
+	"go/types"
 	"strings"
 
 	"golang.org/x/tools/go/ssa"
@@ -37,6 +39,8 @@ type c13Inst struct {
 	fdescs []string
 	kids   []*c13Inst
 	depth  int
+	// third pass: what the fields of the parameter objects of the tree stand for (shared by all instances; see c13Fields)
+	fields *c13Fields
 }
 
 // toG translates a rendering (a value or a label) from the frame of this function into the frame of the root.
@@ -47,25 +51,56 @@ func (in *c13Inst) toG(d string) string {
 	if len(in.fnames) > 0 && strings.Contains(d, "free:") {
 		d = c13SubstFree(d, in.fnames, in.fdescs)
 	}
+	if in.fields != nil {
+		d = in.fields.resolve(d)
+	}
 	return d
 }
 
-// local: the parameter (or captured variable) of this function that is bound to the root-frame value gd ("" if there is none).
-func (in *c13Inst) local(gd string) string {
+// locals: the renderings, in the frame of this function, of the root-frame value gd — gd itself in the root, a parameter
+// or a captured variable bound to it, a field of a parameter object (a struct parameter, by value or by pointer, whose
+// field the call chain binds to gd) or a field of a parameter object this function builds itself.
+func (in *c13Inst) locals(gd string) []string {
+	var out []string
 	if in.parent == nil {
-		return gd
+		out = append(out, gd)
 	}
 	for i, d := range in.descs {
 		if d == gd {
-			return "param:" + in.names[i]
+			out = append(out, "param:"+in.names[i])
 		}
 	}
 	for i, d := range in.fdescs {
 		if d == gd {
-			return "free:" + in.fnames[i]
+			out = append(out, "free:"+in.fnames[i])
 		}
 	}
-	return ""
+	if in.parent != nil {
+		for _, p := range in.fn.Params {
+			st := c13StructOf(p.Type())
+			for j := 0; st != nil && j < st.NumFields(); j++ {
+				if cand := "param:" + p.Name() + "." + st.Field(j).Name(); in.toG(cand) == gd {
+					out = append(out, cand)
+				}
+			}
+		}
+	}
+	for _, fv := range in.fn.FreeVars {
+		st := c13StructOf(fv.Type())
+		for j := 0; st != nil && j < st.NumFields(); j++ {
+			if cand := "free:" + fv.Name() + "." + st.Field(j).Name(); in.toG(cand) == gd {
+				out = append(out, cand)
+			}
+		}
+	}
+	if in.fields != nil {
+		for i, k := range in.fields.keys {
+			if in.fields.owner[i] == in.fn && in.fields.descs[i] == gd {
+				out = append(out, k)
+			}
+		}
+	}
+	return out
 }
 
 // c13SubstFree replaces each "free:<name>" (whole identifier) that has a binding.
@@ -99,7 +134,7 @@ func c13SubstFree(label string, names, descs []string) string {
 // A captured variable is rendered by the one value stored into it (desc does that for a variable that is stored once and
 // only read by closures); the rendering is used only if that store happens before the closure exists — otherwise the
 // closure could see the variable before it holds that value — and a name bound to two different values is dropped.
-func (in *c13Inst) bindFrees(mc *ssa.MakeClosure, maker *c13Inst) {
+func (in *c13Inst) bindFrees(w *World, mc *ssa.MakeClosure, maker *c13Inst) {
 	fn, ok := mc.Fn.(*ssa.Function)
 	if !ok {
 		return
@@ -109,6 +144,12 @@ func (in *c13Inst) bindFrees(mc *ssa.MakeClosure, maker *c13Inst) {
 			break
 		}
 		if al, isAlloc := b.(*ssa.Alloc); isAlloc {
+			if vals, rets := c13StructLocal(w, al); singleStore(al) == nil && vals != nil && len(rets) == 0 {
+				// a captured parameter object: its fields are resolved by c13Fields (which also requires every field write to
+				// happen before the closure is made)
+				in.bindFree(fn.FreeVars[k].Name(), maker.toG(desc(b)))
+				continue
+			}
 			if singleStore(al) == nil {
 				continue
 			}
@@ -122,21 +163,21 @@ func (in *c13Inst) bindFrees(mc *ssa.MakeClosure, maker *c13Inst) {
 				continue
 			}
 		}
-		name, d := fn.FreeVars[k].Name(), maker.toG(desc(b))
-		dup := false
-		for i, n := range in.fnames {
-			if n == name {
-				dup = true
-				if in.fdescs[i] != d {
-					in.fdescs[i] = "free?:" + name
-				}
+		in.bindFree(fn.FreeVars[k].Name(), maker.toG(desc(b)))
+	}
+}
+
+func (in *c13Inst) bindFree(name, d string) {
+	for i, n := range in.fnames {
+		if n == name {
+			if in.fdescs[i] != d {
+				in.fdescs[i] = "free?:" + name
 			}
-		}
-		if !dup {
-			in.fnames = append(in.fnames, name)
-			in.fdescs = append(in.fdescs, d)
+			return
 		}
 	}
+	in.fnames = append(in.fnames, name)
+	in.fdescs = append(in.fdescs, d)
 }
 
 // closuresMadeIn: the MakeClosure instructions of fn.
@@ -175,7 +216,7 @@ func (in *c13Inst) path() []*c13Inst {
 func c13Tree(w *World, root *ssa.Function) (*c13Inst, []*c13Inst) {
 	r := &c13Inst{fn: root}
 	for _, mc := range closuresMadeIn(root) {
-		r.bindFrees(mc, r)
+		r.bindFrees(w, mc, r)
 	}
 	all := []*c13Inst{r}
 	var rec func(in *c13Inst)
@@ -208,10 +249,10 @@ func c13Tree(w *World, root *ssa.Function) (*c13Inst, []*c13Inst) {
 			}
 			// a closure called where it was made: its own captured variables, seen from the maker's frame
 			if mc, ok := call.Call.Value.(*ssa.MakeClosure); ok {
-				kid.bindFrees(mc, in)
+				kid.bindFrees(w, mc, in)
 			}
 			for _, mc := range closuresMadeIn(g) {
-				kid.bindFrees(mc, kid)
+				kid.bindFrees(w, mc, kid)
 			}
 			in.kids = append(in.kids, kid)
 			all = append(all, kid)
@@ -221,6 +262,17 @@ func c13Tree(w *World, root *ssa.Function) (*c13Inst, []*c13Inst) {
 		}
 	}
 	rec(r)
+	fields := c13FieldsOf(w, all)
+	for _, in := range all {
+		in.fields = fields
+		// the bindings were rendered before the table existed
+		for i := range in.descs {
+			in.descs[i] = fields.resolve(in.descs[i])
+		}
+		for i := range in.fdescs {
+			in.fdescs[i] = fields.resolve(in.fdescs[i])
+		}
+	}
 	return r, all
 }
 
@@ -500,9 +552,10 @@ func c13Accumulator(v ssa.Value) *c13Acc {
 	return acc
 }
 
-// grows: every back edge of the loop hands the header a value of the family that is an append of the family with an
-// accepted second operand — so each completed iteration adds that operand's elements.
-func (acc *c13Acc) grows(loop *loopRef, okArg func(v ssa.Value) bool) bool {
+// grows: every back edge of the loop hands the header a value of the family that carries the certificates of the entry
+// of that iteration (c13Acc.grown: a bulk append, an exhausted element-wise inner loop, or a merge of those) — so each
+// completed iteration adds that entry's certificates.
+func (acc *c13Acc) grows(fn *ssa.Function, loop *loopRef, isCerts func(v ssa.Value) bool) bool {
 	lb := loopBlocks(loop.Header)
 	found := false
 	for _, in := range loop.Header.Instrs {
@@ -514,16 +567,460 @@ func (acc *c13Acc) grows(loop *loopRef, okArg func(v ssa.Value) bool) bool {
 			if !lb[loop.Header.Preds[i].Index] {
 				continue
 			}
-			call, ok := e.(*ssa.Call)
-			if !ok {
-				return false
-			}
-			bi, ok := call.Call.Value.(*ssa.Builtin)
-			if !ok || bi.Name() != "append" || len(call.Call.Args) != 2 || !acc.members[call.Call.Args[0]] || !okArg(call.Call.Args[1]) {
+			if !acc.grown(fn, loop, e, isCerts, 0) {
 				return false
 			}
 			found = true
 		}
 	}
 	return found
+}
+
+// ---------------------------------------------------------------------------------------------------------------------
+// C13, third pass (1): PARAMETER OBJECTS. The store identity (type, name) may travel through the call tree as the fields
+// of a struct — built once from the two parameters and handed to the helpers by value, by pointer or as a method
+// receiver — instead of as two loose arguments. The engine renders a field read of such an object as
+// "alloc:T<n>.f" (frame of the function that owns the local; a helper's `param:p.f` becomes that after the parameter is
+// substituted by the call's argument). The rules are about VALUES, so that rendering is resolved to the rendering of the
+// one value the field holds. This is sound only under the conditions c13StructLocal checks: the field is written exactly
+// once, that write happens before anything reads the object (so no reader can see the zero value or an earlier content),
+// the object's address goes nowhere but to module functions that only read it, and the rendering names one object only
+// (a second local of the same type and name anywhere in the tree makes it ambiguous and is not resolved). A field that
+// does not qualify keeps its "alloc:" rendering, which no rule accepts — the alarm stays.
+// ---------------------------------------------------------------------------------------------------------------------
+
+type c13Fields struct {
+	keys  []string        // "alloc:T<n>.f"
+	descs []string        // what the field holds, root frame
+	owner []*ssa.Function // the function the object is a local of
+}
+
+func c13IdentByte(b byte) bool {
+	return b == '_' || b >= '0' && b <= '9' || b >= 'a' && b <= 'z' || b >= 'A' && b <= 'Z'
+}
+
+// resolve replaces every whole occurrence of a key (not followed by more of an identifier) by what the field holds.
+func (f *c13Fields) resolve(d string) string {
+	if len(f.keys) == 0 || !strings.Contains(d, "alloc:") {
+		return d
+	}
+	for round := 0; round < 2; round++ {
+		changed := false
+		for i, k := range f.keys {
+			for from := 0; ; {
+				j := strings.Index(d[from:], k)
+				if j < 0 {
+					break
+				}
+				j += from
+				if e := j + len(k); e < len(d) && c13IdentByte(d[e]) {
+					from = e
+					continue
+				}
+				d = d[:j] + f.descs[i] + d[j+len(k):]
+				from = j + len(f.descs[i])
+				changed = true
+			}
+		}
+		if !changed {
+			break
+		}
+	}
+	return trunc(d, 1500)
+}
+
+// c13StructOf: the struct behind a (pointer to a) struct type, nil otherwise.
+func c13StructOf(t types.Type) *types.Struct {
+	u := t.Underlying()
+	if p, ok := u.(*types.Pointer); ok {
+		u = p.Elem().Underlying()
+	}
+	st, _ := u.(*types.Struct)
+	return st
+}
+
+// c13Before: instruction a is executed before b on every path that reaches b.
+func c13Before(a, b ssa.Instruction) bool {
+	if a.Block() == b.Block() {
+		return instrIndex(a) < instrIndex(b)
+	}
+	return a.Block().Dominates(b.Block())
+}
+
+// c13ReadOnlyParam: the function only reads through the pointer it receives (field reads, whole loads, nil tests, or
+// handing it on to a module function that only reads through it).
+func c13ReadOnlyParam(w *World, p ssa.Value, depth int) bool {
+	if depth > 3 {
+		return false
+	}
+	if p.Referrers() == nil {
+		return true
+	}
+	for _, r := range *p.Referrers() {
+		switch x := r.(type) {
+		case *ssa.FieldAddr:
+			if addrWritten(x, 0) {
+				return false
+			}
+		case *ssa.UnOp, *ssa.DebugRef, *ssa.BinOp:
+		case *ssa.Call:
+			g := staticCallee(x)
+			if g == nil || g.Blocks == nil || !w.IsProductFn(g) || len(g.Params) != len(x.Call.Args) || x.Call.Value == p {
+				return false
+			}
+			for i, a := range x.Call.Args {
+				if a == p && !c13ReadOnlyParam(w, g.Params[i], depth+1) {
+					return false
+				}
+			}
+		default:
+			return false
+		}
+	}
+	return true
+}
+
+// c13StructLocal: for a struct local that is a write-once parameter object, the one value each written field holds
+// (nil if the local cannot be followed), and the returns that hand its address to the caller (a constructor: the caller
+// of c13StructLocal then has to check what the callers of the constructor do with it).
+func c13StructLocal(w *World, al *ssa.Alloc) (map[int]ssa.Value, []*ssa.Return) {
+	vals, rets := c13StructLocal1(w, al)
+	if vals == nil {
+		return nil, nil
+	}
+	return vals, rets
+}
+
+func c13StructLocal1(w *World, al *ssa.Alloc) (map[int]ssa.Value, []*ssa.Return) {
+	pt, ok := al.Type().Underlying().(*types.Pointer)
+	if !ok || al.Referrers() == nil {
+		return nil, nil
+	}
+	if _, ok := pt.Elem().Underlying().(*types.Struct); !ok {
+		return nil, nil
+	}
+	stores := map[int]*ssa.Store{}
+	var reads []ssa.Instruction
+	var rets []*ssa.Return
+	for _, r := range *al.Referrers() {
+		switch x := r.(type) {
+		case *ssa.FieldAddr:
+			if x.Referrers() == nil {
+				continue
+			}
+			for _, rr := range *x.Referrers() {
+				switch y := rr.(type) {
+				case *ssa.Store:
+					if y.Addr != ssa.Value(x) || stores[x.Field] != nil {
+						return nil, nil // the field's address is stored somewhere, or the field is written twice
+					}
+					stores[x.Field] = y
+				case *ssa.UnOp:
+					reads = append(reads, y)
+				case *ssa.DebugRef:
+				case *ssa.FieldAddr:
+					if addrWritten(y, 0) {
+						return nil, nil
+					}
+					reads = append(reads, y)
+				case *ssa.IndexAddr:
+					if addrWritten(y, 0) {
+						return nil, nil
+					}
+					reads = append(reads, y)
+				default:
+					return nil, nil
+				}
+			}
+		case *ssa.UnOp:
+			reads = append(reads, x)
+		case *ssa.DebugRef:
+		case *ssa.Call:
+			g := staticCallee(x)
+			if g == nil || g.Blocks == nil || !w.IsProductFn(g) || len(g.Params) != len(x.Call.Args) || x.Call.Value == ssa.Value(al) {
+				return nil, nil
+			}
+			for i, a := range x.Call.Args {
+				if a == ssa.Value(al) && !c13ReadOnlyParam(w, g.Params[i], 0) {
+					return nil, nil
+				}
+			}
+			reads = append(reads, x)
+		case *ssa.Return:
+			rets = append(rets, x)
+			reads = append(reads, x)
+		case *ssa.MakeClosure:
+			if closureWrites(x, al, 0) {
+				return nil, nil
+			}
+			reads = append(reads, x)
+		default:
+			return nil, nil // a whole-object store, an escape
+		}
+	}
+	out := map[int]ssa.Value{}
+	for f, st := range stores {
+		for _, rd := range reads {
+			if !c13Before(st, rd) {
+				return nil, nil
+			}
+		}
+		out[f] = st.Val
+	}
+	if len(out) == 0 {
+		return nil, nil
+	}
+	return out, rets
+}
+
+// c13AllocsOf: the locals and the heap cells of a function.
+func c13AllocsOf(fn *ssa.Function) []*ssa.Alloc {
+	out := append([]*ssa.Alloc(nil), fn.Locals...)
+	for _, b := range fn.Blocks {
+		for _, x := range b.Instrs {
+			if al, ok := x.(*ssa.Alloc); ok && al.Heap {
+				out = append(out, al)
+			}
+		}
+	}
+	return out
+}
+
+// c13ResultOnlyRead: every call of the constructor in the functions of the tree uses the object it gets only for reading
+// (each call makes a fresh object, so the one a rule meets came from one of these calls and was written by the
+// constructor only, before it returned).
+func c13ResultOnlyRead(w *World, all []*c13Inst, ctor *ssa.Function) bool {
+	seen := map[*ssa.Function]bool{}
+	for _, in := range all {
+		if seen[in.fn] {
+			continue
+		}
+		seen[in.fn] = true
+		for _, ci := range allCalls(in.fn) {
+			if staticCallee(ci) != ctor {
+				continue
+			}
+			call, ok := ci.(*ssa.Call)
+			if !ok || !c13ReadOnlyParam(w, call, 0) {
+				return false
+			}
+		}
+	}
+	return true
+}
+
+func c13FieldsOf(w *World, all []*c13Inst) *c13Fields {
+	f := &c13Fields{}
+	// how many objects of the tree each rendering names
+	count := map[string]int{}
+	seen := map[*ssa.Function]bool{}
+	for _, in := range all {
+		if seen[in.fn] {
+			continue
+		}
+		seen[in.fn] = true
+		for _, al := range c13AllocsOf(in.fn) {
+			if d := desc(al); strings.HasPrefix(d, "alloc:") {
+				count[d]++
+			}
+		}
+	}
+	drop := map[string]bool{}
+	for _, in := range all {
+		for _, al := range c13AllocsOf(in.fn) {
+			base := desc(al)
+			if !strings.HasPrefix(base, "alloc:") || count[base] != 1 {
+				continue
+			}
+			vals, rets := c13StructLocal(w, al)
+			if len(rets) > 0 && !c13ResultOnlyRead(w, all, in.fn) {
+				continue
+			}
+			for fld, v := range vals {
+				k, d := base+"."+fieldName(al.Type(), fld), in.toG(desc(v))
+				dup := false
+				for i := range f.keys {
+					if f.keys[i] == k {
+						dup = true
+						if f.descs[i] != d {
+							drop[k] = true // the owner is reached through two call chains that bind the value differently
+						}
+					}
+				}
+				if !dup {
+					f.keys, f.descs, f.owner = append(f.keys, k), append(f.descs, d), append(f.owner, in.fn)
+				}
+			}
+		}
+	}
+	out := &c13Fields{}
+	for i, k := range f.keys {
+		if !drop[k] && !strings.Contains(f.descs[i], k) {
+			out.keys, out.descs, out.owner = append(out.keys, k), append(out.descs, f.descs[i]), append(out.owner, f.owner[i])
+		}
+	}
+	return out
+}
+
+// ---------------------------------------------------------------------------------------------------------------------
+// C13, third pass (2): the certificates of an entry may be added to the result ONE BY ONE — `for _, c := range certs {
+// …; result = append(result, c) }` — instead of in bulk (`append(result, certs...)`), on some or on all branches of the
+// iteration.
+//   - "only from this store's files": an element of the certificates of the entry comes from the same file as the whole
+//     slice does, so `append(result, certs[i])` has an accepted source (c13ElemOf).
+//   - "every completed iteration adds the certificates of its entry" (needed when the emptiness test is made on the
+//     listing): the value the iteration hands back to the header of the entries loop is
+//       (a) append(<family>, certs...), or
+//       (b) the accumulator phi of an inner loop over ALL of certs (range, or an index loop from 0 in steps of 1) whose
+//           every back edge hands back append(<that phi>, certs[<the loop's index>]) and whose body cannot get back to
+//           the entries loop except through the inner header — so the value seen on the way out is the one of the
+//           exhausted loop: every element appended (and there is at least one: entry/at-least-one-certificate), or
+//       (c) a merge of such values (if/else instead of continue).
+// ---------------------------------------------------------------------------------------------------------------------
+
+// c13ElemOf: v is `x[i]` read from a slice — returns the slice and the index (nil, nil otherwise).
+func c13ElemOf(v ssa.Value) (ssa.Value, ssa.Value) {
+	switch y := v.(type) {
+	case *ssa.UnOp:
+		if ia, ok := y.X.(*ssa.IndexAddr); ok && y.Op == token.MUL {
+			return ia.X, ia.Index
+		}
+	case *ssa.Index:
+		return y.X, y.Index
+	}
+	return nil, nil
+}
+
+// c13VarArgs: the explicit elements of a non-spread append (`append(s, a, b)`), nil for `append(s, x...)`.
+func c13VarArgs(v ssa.Value) []ssa.Value {
+	sl, ok := v.(*ssa.Slice)
+	if !ok || sl.Low != nil || sl.High != nil {
+		return nil
+	}
+	al, ok := sl.X.(*ssa.Alloc)
+	if !ok || al.Comment != "varargs" {
+		return nil
+	}
+	return orderedLitElems(al)
+}
+
+// c13ElemsOfCerts: the second operand of an append consists of elements of the certificates of the entry.
+func c13ElemsOfCerts(v ssa.Value, isCerts func(ssa.Value) bool) bool {
+	els := c13VarArgs(v)
+	for _, e := range els {
+		if x, _ := c13ElemOf(e); x == nil || !isCerts(x) {
+			return false
+		}
+	}
+	return len(els) > 0
+}
+
+func c13IsAppend(v ssa.Value) *ssa.Call {
+	call, ok := v.(*ssa.Call)
+	if !ok {
+		return nil
+	}
+	if bi, ok := call.Call.Value.(*ssa.Builtin); !ok || bi.Name() != "append" || len(call.Call.Args) != 2 {
+		return nil
+	}
+	return call
+}
+
+// c13CountsFromFirst: the loop visits every index from the first on: a range loop, or `for i := 0; i < len(x); i++`.
+func c13CountsFromFirst(l *loopRef) bool {
+	if strings.HasPrefix(l.Header.Comment, "rangeindex.loop") {
+		return true
+	}
+	p, ok := l.Idx.(*ssa.Phi)
+	if !ok || p.Block() != l.Header {
+		return false
+	}
+	lb := loopBlocks(l.Header)
+	for i, e := range p.Edges {
+		if lb[l.Header.Preds[i].Index] {
+			bo, ok := e.(*ssa.BinOp)
+			if !ok || bo.Op != token.ADD || bo.X != ssa.Value(p) {
+				return false
+			}
+			if k, ok := bo.Y.(*ssa.Const); !ok || k.Value == nil || constString(k) != "1" {
+				return false
+			}
+		} else if k, ok := e.(*ssa.Const); !ok || k.Value == nil || constString(k) != "0" {
+			return false
+		}
+	}
+	return true
+}
+
+// c13Reaches: block `to` is reachable from `from` in the control-flow graph without entering `avoid`.
+func c13Reaches(from, to, avoid *ssa.BasicBlock) bool {
+	seen := map[int]bool{}
+	stack := []*ssa.BasicBlock{from}
+	for len(stack) > 0 {
+		b := stack[len(stack)-1]
+		stack = stack[:len(stack)-1]
+		if b == avoid || seen[b.Index] {
+			continue
+		}
+		if b == to {
+			return true
+		}
+		seen[b.Index] = true
+		stack = append(stack, b.Succs...)
+	}
+	return false
+}
+
+// grown: the value carries the certificates of the entry of this iteration (see above).
+func (acc *c13Acc) grown(fn *ssa.Function, outer *loopRef, v ssa.Value, isCerts func(ssa.Value) bool, depth int) bool {
+	if call := c13IsAppend(v); call != nil {
+		return acc.members[call.Call.Args[0]] && isCerts(call.Call.Args[1])
+	}
+	p, ok := v.(*ssa.Phi)
+	if !ok || depth > 3 || !acc.members[p] || p.Block() == outer.Header || !loopBlocks(outer.Header)[p.Block().Index] {
+		return false
+	}
+	for _, l := range allLoops(fn) {
+		l := l
+		if l.Header != p.Block() {
+			continue
+		}
+		// (b) the accumulator of an inner loop over all the certificates
+		if !isCerts(l.X) || !c13CountsFromFirst(&l) || c13Reaches(l.Body, outer.Header, l.Header) {
+			return false
+		}
+		lb := loopBlocks(l.Header)
+		back := 0
+		for i, e := range p.Edges {
+			if !lb[l.Header.Preds[i].Index] {
+				if !acc.members[e] {
+					return false
+				}
+				continue
+			}
+			call := c13IsAppend(e)
+			if call == nil || call.Call.Args[0] != ssa.Value(p) {
+				return false
+			}
+			els := c13VarArgs(call.Call.Args[1])
+			if len(els) != 1 {
+				return false
+			}
+			if x, idx := c13ElemOf(els[0]); x == nil || !isCerts(x) || idx != l.Idx {
+				return false
+			}
+			back++
+		}
+		return back > 0
+	}
+	// (c) a merge inside the iteration
+	if lb := loopBlocks(p.Block()); len(lb) > 1 || len(p.Edges) == 0 {
+		return false // the header of some other loop
+	}
+	for _, e := range p.Edges {
+		if !acc.grown(fn, outer, e, isCerts, depth+1) {
+			return false
+		}
+	}
+	return true
 }
